@@ -9,7 +9,7 @@ import json, os, shutil, subprocess, sys, time
 from concurrent.futures import ThreadPoolExecutor
 
 ROOT = "/verif/seeded"
-EXTRA = {"C15-i": ["C11", "C06"], "C12-h": ["C18"], "C15-f": ["C08"], "C08-f": ["C15"], "C01-a": ["C12"], "C01-b": ["C03"], "C06-b": ["C08"], "C12-a": ["C18"], "C05-a": ["C08"], "C07-a": ["C06"], "C02-a": ["C01"]}
+EXTRA = {"C14-m": ["C01"], "C13-m": ["C08"], "C11-m": ["C04"], "C15-i": ["C11", "C06"], "C12-h": ["C18"], "C15-f": ["C08"], "C08-f": ["C15"], "C01-a": ["C12"], "C01-b": ["C03"], "C06-b": ["C08"], "C12-a": ["C18"], "C05-a": ["C08"], "C07-a": ["C06"], "C02-a": ["C01"]}
 SM = "/tmp/sm"
 
 
